@@ -79,7 +79,7 @@ func (c CallGraph) AnalysisByFiles(restApis []apidomain.RestAPI, deps []core_dom
 		caller := restApi.BuildFullMethodPath()
 
 		loopCount = 0
-		chain := "\"" + restApi.HttpMethod + " " + restApi.Uri + "\" -> \"" + escapeStr(caller) + "\";\n"
+		chain := "\"" + escapeStr(restApi.HttpMethod) + " " + escapeStr(restApi.Uri) + "\" -> \"" + escapeStr(caller) + "\";\n"
 		apiCallChain := BuildCallChain(caller, methodMap, diMap)
 		chain = chain + apiCallChain
 
